@@ -216,8 +216,8 @@ def _ell(e):
 def fits32(g, par):
     """every intermediate of the specification's integer inequalities stays below 2^31"""
     h, w, sy, sx, oy, ox = _geo_tuple(g)
-    dy = h * (sy // 2) + abs(par["cy"] - oy) + 2 * sy
-    dx = w * (sx // 2) + abs(par["cx"] - ox) + 2 * sx
+    dy = h * (sy // 2) + abs(par["cy"]) + 2 * sy
+    dx = w * (sx // 2) + abs(par["cx"]) + 2 * sx
     worst = 8 * (4 * dy * dy + 4 * dx * dx) + 8 * (max(par["r"]) + 2)
     for e in (par["e1"], par["e2"]):
         qn, qd, c, s, n = _ell(e)
@@ -261,7 +261,8 @@ def _call_shape(aa, kind, r, par, variant, tau, kw):
 
 
 def rec_shape(g, par, tau, variant=0):
-    """one constructor call (invert False and True) + the summaries of the returned mask"""
+    """one constructor call (invert False and True, and once more with another origin) + the summaries of the returned
+    mask.  par["cy"], par["cx"]: the centre of the shape, measured relative to the mask origin (the constructors' convention)"""
     import autoarray as aa
 
     h, w, sy, sx, oy, ox = _geo_tuple(g)
@@ -275,10 +276,17 @@ def rec_shape(g, par, tau, variant=0):
     _call_shape(aa, kind, r, par, variant, tau, dict(decoy, invert=bool(variant % 2)))
     mk = _call_shape(aa, kind, r, par, variant, tau, dict(kw, invert=False))
     mi = _call_shape(aa, kind, r, par, variant, tau, dict(kw, invert=True))
+    # the same call with another origin: the origin only labels the result
+    o2 = [(0, 0), (oy + 6, ox - 10), (oy - 2 * sy, ox + sx), (-oy - 2, ox)][variant % 4]
+    if o2 == (oy, ox):
+        o2 = (oy + 6, ox - 10)
+    m2 = _call_shape(aa, kind, r, par, variant, tau, dict(kw, origin=(o2[0] * tau, o2[1] * tau), invert=False))
     al = _Alpha(tau)
     rec = {"api": "shape", "g": dict(g), "par": par, "tau": repr(float(tau)), "variant": int(variant),
            "out": _unmasked(mk, (h, w)), "out_inv": _unmasked(mi, (h, w)),
-           "lab": al.ticks(list(mk.pixel_scales) + list(mk.origin), "labels")}
+           "lab": al.ticks(list(mk.pixel_scales) + list(mk.origin), "labels"),
+           "o2": [int(o2[0]), int(o2[1])], "out_o2": _unmasked(m2, (h, w)),
+           "lab2": al.ticks(list(m2.pixel_scales) + list(m2.origin), "labels")}
     rec["has_s"] = bool(rec["out"]) and rec["out"] != [-2]
     rec["s"] = read_summaries(mk, tau, 1 + variant % 3) if rec["has_s"] else {"circ": 3, "rad": -3}
     return rec
@@ -521,10 +529,9 @@ def random_tasks(rng, n_shape, n_pix, n_hist, n_rescale, seed):
         sy, sx = (int(x) for x in rng.choice([4, 8, 12], size=2))
         oy, ox = (0, 0) if made % 2 == 0 else tuple(int(2 * x) for x in rng.integers(-30, 31, size=2))
         g = {"h": h, "w": w, "sy": sy, "sx": sx, "oy": oy, "ox": ox}
-        # the centre relative to the origin: anywhere in the frame and a little outside it, on and off pixel centres
-        ry = int(rng.integers(-(h * sy) // 2 - 6, (h * sy) // 2 + 7))
-        rx = int(rng.integers(-(w * sx) // 2 - 6, (w * sx) // 2 + 7))
-        cy, cx = oy + ry, ox + rx
+        # the centre (relative to the origin): anywhere in the frame and a little outside it, on and off pixel centres
+        cy = int(rng.integers(-(h * sy) // 2 - 6, (h * sy) // 2 + 7))
+        cx = int(rng.integers(-(w * sx) // 2 - 6, (w * sx) // 2 + 7))
         kind = ALL_KINDS[made % 5]
         e1 = dict(zip(("qn", "qd"), AXIS_RATIOS[int(rng.integers(0, 4))]))
         e1.update(dict(zip(("c", "s", "n"), ROTATIONS[int(rng.integers(0, len(ROTATIONS)))])))
@@ -538,8 +545,8 @@ def random_tasks(rng, n_shape, n_pix, n_hist, n_rescale, seed):
         rr = set()
         while len(rr) < nr:  # radii tight around randomly chosen pixels (2 d^2 +- 1), sorted, distinct
             i, j = int(rng.integers(0, h)), int(rng.integers(0, w))
-            dy = oy + (h - 1 - 2 * i) * (sy // 2) - cy
-            dx = ox + (2 * j - w + 1) * (sx // 2) - cx
+            dy = (h - 1 - 2 * i) * (sy // 2) - cy
+            dx = (2 * j - w + 1) * (sx // 2) - cx
             v = 2 * (dy * dy + dx * dx) + int(rng.choice([-1, 1]))
             if v >= 1:
                 rr.add(v)
@@ -607,7 +614,7 @@ def _describe(rec):
     if rec["api"] == "shape":
         p = rec["par"]
         meth = {"annular": "circular_annular", "anti_annular": "circular_anti_annular"}.get(p["kind"], p["kind"])
-        return (f"Mask2D.{meth} on {geo} centre ({p['cy']},{p['cx']})u R2={p['r']} e1={_ell(p['e1'])} e2={_ell(p['e2'])} "
+        return (f"Mask2D.{meth} on {geo} centre-from-origin ({p['cy']},{p['cx']})u R2={p['r']} e1={_ell(p['e1'])} e2={_ell(p['e2'])} "
                 f"-> unmasked {rec['out'][:40]}")
     if rec["api"] == "pix":
         return f"Mask2D.from_pixel_coordinates on {geo} pixels {rec['pix'][:30]} buffer {rec['b']} -> unmasked {rec['out'][:40]}"
@@ -634,9 +641,12 @@ def validate(ctx, records, tasks, tag, chunk=3000):
         _, rej = ctx.validate_trace("Trace_MaskShapes", TRACE_CFG, ch, tag=f"{tag}-{k}", timeout=1800, env=env)
         return rej
 
+    before = ctx.traces_validated
     with cf.ThreadPoolExecutor(max_workers=min(16, len(chunks) or 1)) as ex:
         for rej in ex.map(one, list(enumerate(chunks))):
             rejects.extend(rej)
+    # (the per-chunk additions to the counter are made from several threads; recount here)
+    ctx.traces_validated = before + len(records) - len({rj["id"] for rj in rejects})
     for rj in rejects:
         rec = records[rj["id"]]
         ctx.violation(rj["sig"], f"{_describe(rec)}: failed {rj['clauses'][:6]}",
@@ -713,7 +723,7 @@ def run(ctx):
     for k, fam in enumerate(b["shape_families"]):
         fam = dict(fam)
         probes = fam.pop("probes")
-        jobs.append((f"MC_MaskShapes_s{k}", mc_cfg(probes=probes), mc_defs(**fam), False))
+        jobs.append((f"MC_MaskShapes_s{k}", mc_cfg(probes=probes), mc_defs(**fam), k == len(b["shape_families"]) - 1))
     mk = dict(b["masks"])
     depth = mk.pop("depth")
     jobs.append(("MC_MaskShapes_m", mc_cfg(depth=depth), mc_defs(**mk), True))
@@ -779,7 +789,9 @@ def run(ctx):
         "the float arithmetic of the code is exact, and a pixel exactly on the circle counts as within it (<=)",
         "ellipses: axis ratios qn/qd with qn odd and rotations by exact (quarter-turn or Pythagorean) angles, so the elliptical "
         "inequality is decided at least 3e-8 (relative) away from equality",
-        "the centre of a shape is a coordinate of the mask's own system (origin included)",
+        "convention judged for the shape constructors (the code base's, shared with C02 / C12): `centre` is measured relative "
+        "to the mask origin (pixel centres with origin (0,0)); `origin` is only attached to the result and the boolean array "
+        "is the same for every origin",
         "is_circular / circular_radius: when the mask centre lies on the boundary between two rows (columns) either of them may "
         "be taken as the central one; summaries of an entirely masked mask other than the three counts are not judged",
         "mask_centre is the centre of the bounding box of the unmasked pixel coordinates (grid_2d_centre_from; pinned by the "
